@@ -10,7 +10,7 @@
  *           4 = short reads: callback kinds deliver at most 7 bytes per call
  *   ops: 0 NEXT  1 READ(arg bytes)  2 READALL  3 CHECK(with progress cb)  4 EXTRACT(NULL name if allowed)
  *        5 EXTRACT(explicit name out_<opidx>)  6 STOP (abandon: go straight to free)  7 CHECK(no callback)
- *        8 NEXT repeated until NULL (arg = operation applied to each: 0 none, 2 readall, 3 check, 4 extract)
+ *        8 NEXT repeated until NULL (arg = operation applied to each: 0 none, 1 read one byte, 2 readall, 3 check, 4 extract)
  * OUT: text, one event per line (see emit_* below); every case ends with an END line carrying allocator and handle balance.
  * Each case runs in WORKDIR/<id>/ (created here) so extraction with header paths stays inside it.
  */
@@ -28,7 +28,21 @@
 #include <dirent.h>
 #include <sys/stat.h>
 #include "lha_reader.h"
+#include <sys/time.h>
+#include <signal.h>
 #include "verif_hooks.h"
+
+/* per-case CPU-time watchdog: a case that burns more than VERIF_CASE_CPU_S seconds of CPU is reported as a hang
+ * (exit 3 + "WATCHDOG" on stderr); the driver attributes it to the marked case and restarts after it. */
+static void case_watchdog(int sig) { static const char m[] = "\nWATCHDOG case exceeded its CPU budget\n"; (void) sig; if (write(2, m, sizeof m - 1) < 0) { } _exit(3); }
+static void arm_watchdog(void)
+{
+	struct itimerval it; const char *e = getenv("VERIF_CASE_CPU_S"); long s = e ? atol(e) : 30;
+	memset(&it, 0, sizeof it); it.it_value.tv_sec = s > 0 ? s : 30;
+	signal(SIGPROF, case_watchdog);
+	setitimer(ITIMER_PROF, &it, NULL);
+}
+
 #include "allocmon.h"
 
 #define ENTER() (allocmon_active = 1)
@@ -202,6 +216,7 @@ int main(int argc, char **argv)
 		if (chdir(dir) != 0) { fprintf(stderr, "chdir %s failed\n", dir); return 2; }
 		fprintf(out, "CASE %u\n", id);
 		fflush(out);
+		arm_watchdog();
 		allocmon_reset();
 		fds_before = count_fds();
 		memset(&src, 0, sizeof src);
@@ -280,7 +295,8 @@ int main(int argc, char **argv)
 					ENTER(); cur = lha_reader_next_file(reader); LEAVE();
 					emit_header(reader, cur);
 					if (!cur || ++guard > 100000) break;
-					if (arg == 2) { uint8_t *b; size_t n = do_readall(reader, &b, 64u << 20); emit_data("READALL", b, n, flags & 1); free(b); }
+					if (arg == 1) { uint8_t one[1]; size_t n; ENTER(); n = lha_reader_read(reader, one, 1); LEAVE(); emit_data("READ", one, n, 1); }
+					else if (arg == 2) { uint8_t *b; size_t n = do_readall(reader, &b, 64u << 20); emit_data("READALL", b, n, flags & 1); free(b); }
 					else if (arg == 3) { int res; cbn = 0; cbbad = 0; ENTER(); res = lha_reader_check(reader, progress_cb, NULL); LEAVE();
 						fprintf(out, "CHECK result=%d ncb=%u first=%u/%u last=%u/%u bad=%u\n", res, cbn, cbfirst[0], cbfirst[1], cblast[0], cblast[1], cbbad); }
 					else if (arg == 4) { int res; char name[64]; char *fn = NULL;
